@@ -13,6 +13,7 @@ import (
 
 	"verifsim/engine"
 	"verifsim/gtier"
+	"verifsim/ops"
 	"verifsim/rollup"
 	"verifsim/tape"
 
@@ -360,6 +361,9 @@ func (c *C15) Run(x *engine.Ctx) *engine.Violation {
 		x.S.Count("fault:disk/crash-after-k-bytes")
 		prefix = data[:k]
 	}
+	if ops.Bin() != "" && t.Chance(1, 20) {
+		return c.cliOnPrefix(x, format, prefix, ends)
+	}
 	style := t.Weighted(5, 3, 1)
 	if int64(len(prefix)) > 4<<20 && style == 2 && !t.Chance(1, 4) {
 		style = 0 // large real files only now and then
@@ -589,6 +593,52 @@ func (c *C11) Run(x *engine.Ctx) *engine.Violation {
 	}
 	if x.S.WantSample() {
 		x.S.Sample(map[string]any{"system": a.Key(), "setup": c.dw, "file_path": path, "reader": []string{"bytes.Reader", "short reads", "ReadSystemFromFile"}[style], "raw_bytes": len(d.raw), "compressed_bytes": len(d.comp), "reserialised": []string{"no", "raw identical", "compressed identical"}[reser], "cross_prove_verify": "ok"})
+	}
+	return nil
+}
+
+// cliOnPrefix: the commands that read a keys file, run as real processes on a truncated file,
+// must end non-zero (and `start` must not stay up serving a half-loaded system).
+func (c *C15) cliOnPrefix(x *engine.Ctx, format string, prefix []byte, ends [4]int64) *engine.Violation {
+	t := x.T
+	path := filepath.Join(c.scratch, fmt.Sprintf("c15cli-%d-%d.ps", os.Getpid(), x.Run))
+	if err := os.WriteFile(path, prefix, 0o644); err != nil {
+		panic(err)
+	}
+	defer os.Remove(path)
+	out := path + ".out"
+	defer os.Remove(out)
+	mode := c.d.sys.Mode
+	var args []string
+	cmdName := ""
+	switch t.Draw(6) {
+	case 0:
+		cmdName, args = "prove", []string{"prove", "--mode", mode, "--keys-file", path}
+	case 1:
+		cmdName, args = "verify", []string{"verify", "--mode", mode, "--keys-file", path, "--input-hash", "0x1"}
+	case 2:
+		cmdName, args = "export-solidity", []string{"export-solidity", "--keys-file", path, "--output", out}
+	case 3:
+		cmdName, args = "export-vk", []string{"export-vk", "--keys-file", path, "--output", out}
+	case 4:
+		cmdName, args = "convert-to-raw", []string{"convert-to-raw", "--input", path, "--output", out}
+	default:
+		p1 := freePort(26000 + int(x.Run%5000))
+		p2 := freePort(p1 + 1)
+		cmdName, args = "start", []string{"start", "--mode", mode, "--keys-file", path, "--prover-address", fmt.Sprintf("127.0.0.1:%d", p1), "--metrics-address", fmt.Sprintf("127.0.0.1:%d", p2)}
+	}
+	r := ops.Run(ops.Cmd{Args: args, Stdin: []byte("{}"), Timeout: 90 * time.Second})
+	x.S.Eval(1)
+	sec := sectionOf(ends, int64(len(prefix)))
+	x.S.Count("fault:disk/cli-on-truncated-file/" + cmdName)
+	x.S.Seen(fmt.Sprintf("cli/%s/%s/%s", cmdName, format, sec))
+	x.Log.Addf("cli", cmdName, "%s prefix=%d (%s) exit=%d timeout=%v", format, len(prefix), sec, r.Exit, r.TimedOut)
+	where := fmt.Sprintf("`gnark-mbu %s` on a %s-format keys file truncated to %d of %d bytes (ends in %s)", cmdName, format, len(prefix), ends[3], sec)
+	if r.TimedOut {
+		return engine.Violatef("C15/cli-keeps-running-on-truncated-file/"+cmdName, "%s: still running after 90 s (a server that came up on a half-loaded system, or a hang)", where)
+	}
+	if r.Exit == 0 {
+		return engine.Violatef("C15/cli-exits-zero-on-truncated-file/"+cmdName, "%s: exit status 0", where)
 	}
 	return nil
 }
